@@ -66,7 +66,12 @@ func vfMiekgSafe(m *vfkit.Msg) bool {
 func TestVfC02RoundTrip(t *testing.T) {
 	st := vfkit.Stats("TestVfC02RoundTrip", "model messages (all header bits, 0-3 questions, A/AAAA/NS/CNAME/PTR/MX/SOA/SRV/OPT/TXT/private types, adversarial labels from a shared pool, incoming compression pointers drawn from a tape, 1/40 cases > 16 KiB) -> Unpack -> Pack(compression off/on, no limit) -> 4 decoders; non-trivial = >=1 record and (pointer emitted on output, or non-LDH label, or name >= 200 octets, or record beyond 0x3FFF, or opaque/OPT record, or name inside RDATA)")
 	defer vfkit.Flush()
-	rapid.Check(t, func(t *rapid.T) {
+	rapid.Check(t, vfC02Prop(st))
+}
+
+// vfC02Prop is the property itself; the rapid test and the native fuzz target (rapid.MakeFuzz) share it.
+func vfC02Prop(st *vfkit.Collector) func(t *rapid.T) {
+	return func(t *rapid.T) {
 		M, big := vfGenC02Msg(t)
 		W, inPtrs := vfkit.Encode(M, vfkit.EncOpts{Compress: vfkit.GenCompressTape(t)})
 		if len(W) > 65535 {
@@ -228,5 +233,14 @@ func TestVfC02RoundTrip(t *testing.T) {
 		st.Case(vfkit.Fingerprint(W), nontrivial, classes, func() any {
 			return map[string]any{"model": fmt.Sprint(M.String()[:min(len(M.String()), 600)]), "wire_in": vfkit.Hex(W)}
 		})
-	})
+	}
+}
+
+// FuzzVfC02RoundTrip drives the same property with Go's native coverage-guided fuzzing: the fuzzer mutates the bit stream
+// rapid draws from (thorough tier only; nothing is replayed in the quick tier apart from one seed input).
+func FuzzVfC02RoundTrip(f *testing.F) {
+	st := vfkit.Stats("FuzzVfC02RoundTrip", "the round-trip property of TestVfC02RoundTrip driven by native coverage-guided fuzzing of rapid's draw stream (rapid.MakeFuzz); same oracle and non-triviality rule")
+	defer vfkit.Flush()
+	f.Add([]byte("vf seed input: any octets are a valid draw stream"))
+	f.Fuzz(rapid.MakeFuzz(vfC02Prop(st)))
 }
